@@ -12,6 +12,9 @@ import (
 // removed by a user who may not enter all of it). What random histories reach only when several dependent choices
 // coincide (the same file three times in a row, a size equal to the current size, …) is reached here by construction.
 
+// smallFilter (flag -scn): the scenarios a part runs when it is not given one by its caller.
+var smallFilter []string
+
 type smallScenario struct {
 	name   string
 	setup  []string // protocol lines without the "fs 0 " prefix
@@ -133,6 +136,15 @@ func smallHistoriesDepth(tier string, only string, delta int) (hs []lib.History,
 	for _, sc := range smallScenarios() {
 		if (only != "" && sc.name != only) || (only == "" && sc.name == "views") {
 			continue
+		}
+		if only == "" && len(smallFilter) > 0 {
+			keep := false
+			for _, x := range smallFilter {
+				keep = keep || x == sc.name
+			}
+			if !keep {
+				continue
+			}
 		}
 		depth := sc.quickL
 		if tier == "thorough" {
